@@ -179,6 +179,8 @@ def hist_ops(nfiles, with_remodel):
     ops += [("restore", None), ("restore", "go"), ("restore", "stop")]
     # a second backup request under the default name, given explicitly / omitted / empty: refused, nothing changes
     ops += [("backup", "default_back"), ("backup", None), ("backup", "")]
+    # the same request from a manager object that was created before the backup existed (another tool instance)
+    ops += [("stale-backup", "default_back")]
     if with_remodel:
         # remodel is run on all tasks: run_remodel's task filter keys on BIDS 'task-<name>' entities while
         # BackupManager.get_task keys on 'task_<name>', so a task-filtered remodel has no common file naming (observation)
@@ -189,6 +191,7 @@ def hist_ops(nfiles, with_remodel):
 def run_history(rec, bm_mod, cli, root, selection, hist):
     make_tree(root, FILES3)
     files = [os.path.join(root, FILES3[i][0]) for i in selection]
+    stale = bm_mod.BackupManager(root)
     bm_mod.BackupManager(root).create_backup(files, backup_name="default_back")
     backup_ref = fsseam.tree_bytes(os.path.join(root, "derivatives", "remodel", "backups"))
     model = {rel: TSV[key] for rel, key in FILES3}
@@ -217,9 +220,10 @@ def run_history(rec, bm_mod, cli, root, selection, hist):
                 shutil.rmtree(os.path.join(root, "sub-01"), ignore_errors=True)
                 for rel in [r for r in model if r.startswith("sub-01/")]:
                     model.pop(rel)
-            elif op[0] == "backup":
+            elif op[0] in ("backup", "stale-backup"):
                 present = [os.path.join(root, r) for r in sorted(model)]
-                made = bm_mod.BackupManager(root).create_backup(present, backup_name=op[1])
+                mgr = stale if op[0] == "stale-backup" else bm_mod.BackupManager(root)
+                made = mgr.create_backup(present, backup_name=op[1])
                 if made:
                     rec.violation("C18:history:backup:existing-backup-name-not-refused", name=repr(op[1]), **where)
                     return
